@@ -88,10 +88,10 @@ func Chunks(data []byte, min, avg, max uint64, sha256mode bool) []Chunk {
 // ---- caibx ----
 
 const (
-	FormatIndex     = 0x96824d9c7b129ff9
-	FormatTable     = 0xe75b9e112f17417d
-	TableTailMarker = 0x4b4f050e5549ecd1
-	FlagSHA512256   = 0x2000000000000000
+	FormatIndex       = 0x96824d9c7b129ff9
+	FormatTable       = 0xe75b9e112f17417d
+	TableTailMarker   = 0x4b4f050e5549ecd1
+	FlagSHA512256     = 0x2000000000000000
 	FlagExcludeNoDump = 0x8000000000000000
 )
 
